@@ -31,10 +31,11 @@ def _run(acc):
 
 def run(tier, acc):
     acc.rule = ("the finite set, exhaustively: every (name, opcode) of keyword_to_atom/keyword_from_atom for versions 0,1,2, the modern "
-                "primitive list, every opcode 0..255 and the two 4-byte secp opcodes against the evaluator of each version, and per name "
+                "primitive list, every opcode 0..255 and the two 4-byte secp opcodes against the evaluator of each version and against the stepping evaluator "
+                "(cldb, compile-time evaluation, REPL), and per name "
                 "the opcode it assembles to, behaves as when compiled by the classic and by the modern compiler (outcomes of "
                 "(mod (X ..) (NAME X ..)) at arities 1..3 on 4 argument lists compared with clvmr running the opcode directly), the "
-                "stepping evaluator's table and #name; TLC (Trace_OpTables) folds the rows into tables and evaluates the invariants. "
+                "stepping evaluator's table, the outcomes of the stepping evaluator running the opcode directly, and #name; TLC (Trace_OpTables) folds the rows into tables and evaluates the invariants. "
                 "non-trivial = distinct operator names")
     acc.assumptions = ["clvmr implements the opcode <=> DefaultProgramRunner does not answer 'unimplemented operator'",
                        "compiler clause is one-directional: where the direct opcode call returns, the compiled call returns the same"]
